@@ -261,7 +261,7 @@ def _standin(rep, tier, seed):
                 desc = {"landscapes": [{"start": x[0], "stop": x[1], "num_steps": x[2], "values": x[3].tolist()} for x in snaps0], "grid_arguments": {k: repr(v) for k, v in kw.items()}}
                 try:
                     sn = snap_pl(list(Ls), **kw)
-                    coef = [rng.choice([1.0, -2.0, 0.5, 3.0]) for _i in range(nl)]
+                    coef = [rng.choice([1.0, -2.0, 0.5, 3.0, 0.0]) for _i in range(nl)]
                     lc = lc_approx(list(Ls), list(coef), **kw)
                     av = average_approx(list(Ls), **kw)
                     lc_again = lc_approx(list(Ls), list(coef), **kw)
@@ -271,13 +271,24 @@ def _standin(rep, tier, seed):
                 evals += 4
                 distinct.add(("snap", nl, tuple(sorted(kw))))
                 wants = []
+                snap_ok = True
                 for (a0, b0, m0, vv), S in zip(snaps0, sn):
                     want = np.array([[lin(x, a0, b0, m0, row) for x in grid] for row in vv])
-                    wants.append(want)
-                    if (S.start, S.stop, S.num_steps) != (g0, g1, gm) or S.values.shape != want.shape or not np.allclose(S.values, want, atol=1e-9):
+                    # nodes of the common grid outside a landscape's own sampled window: the statement (linear interpolation of the samples)
+                    # is silent there; constant continuation (what the code does) and zero (a landscape vanishes away from its bars) are
+                    # both accepted.  Inside the window the interpolant is the only admissible value.
+                    outside = np.array([(x < a0 or x > b0) for x in grid])
+                    got_v = np.asarray(S.values, dtype=float) if np.shape(S.values) == want.shape else None
+                    ok_vals = got_v is not None and bool(np.all(np.isclose(got_v, want, atol=1e-9) | (outside[None, :] & np.isclose(got_v, 0.0, atol=1e-12))))
+                    wants.append(got_v if ok_vals else want)
+                    if (S.start, S.stop, S.num_steps) != (g0, g1, gm) or not ok_vals:
+                        snap_ok = False
                         rep.violation("snap_pl with grid arguments %s: result on grid (%r, %r, %r) with values %s; linear interpolation of every depth onto (%r, %r, %r) gives %s"
                                       % (kw, S.start, S.stop, S.num_steps, np.asarray(S.values).tolist(), g0, g1, gm, want.tolist()), "snap:interp", {"input": desc})
                         break
+                if not snap_ok:
+                    continue
+                # "the same combination of the re-sampled values": of what snap_pl itself returns (checked above)
                 k2 = max(w.shape[0] for w in wants)
                 padw = lambda v: np.vstack([v, np.zeros((k2 - v.shape[0], gm))]) if v.shape[0] < k2 else v
                 if not (lc.values.shape == (k2, gm) and np.allclose(lc.values, sum(c * padw(w) for c, w in zip(coef, wants)), atol=1e-9) and (lc.start, lc.stop, lc.num_steps) == (g0, g1, gm)):
